@@ -3,12 +3,55 @@
 import json, os, sys
 ROOT = os.path.dirname(os.path.abspath(__file__))
 
+def C(technique, text, note, design):
+    return dict(technique=technique, text=text, note=note, design=design)
+
+SPEC = "Trusts: the independent spec model in engine/spec (re-validated against the frozen official vectors in oracle/ at the start of every shard), rustc, proptest. "
+DBG = "Harness built with debug-assertions and overflow-checks ON so internal assertions and arithmetic overflow surface as failures; the thorough tier repeats the run in a build without them. "
+
 CHECKS = {
- "C01": dict(
-   technique="property-based testing (proptest, seeded, shrinking) + dense length sweep against an independent spec model",
-   text="Exploration: every input length 0..130 KiB (quick) / 0..520 KiB (thorough) in all three modes plus proptest-generated (mode, key/context, boundary-lattice length, content) cases are compared with an independent recursive-definition model of the BLAKE3 paper that is itself pinned to a frozen copy of the official vectors; panics and debug assertions count as failures. Right level because the property quantifies over all inputs and the oracle is executable; it cannot show absence beyond the generated cases.",
-   note="Trusts: the spec model in engine/spec (self-tested against oracle/test_vectors.json on every run), rustc, proptest. Harness is built with debug-assertions and overflow-checks ON (thorough also without).",
-   design="DESIGN.md §3 C01"),
+ "C01": C("property-based testing (proptest, seeded, shrinking) + dense length sweep vs an independent spec model",
+   "Exploration: every input length 0..130 KiB (quick) / 0..520 KiB (thorough) in all three modes plus proptest-generated (mode, key/context, boundary-lattice length, content) cases, and 16-64 MiB inputs in the thorough tier, are compared with a recursive-definition model of the BLAKE3 paper pinned to a frozen copy of the official vectors; panics count as failures. The property quantifies over all inputs and has an executable oracle, so generated search is the fitting level; absence beyond the generated cases is not shown.",
+   SPEC + DBG, "DESIGN.md §3 C01"),
+ "C02": C("model-based property testing of call histories (proptest vec(op) + interpreter, spec model compared after every op)",
+   "Exploration over histories of update/Write/io::copy/update_reader/update_rayon/update_mmap*/finalize/finalize_xof/count/clone on up to three hashers; sizes are resolved against the running total so block/chunk/power-of-two/SIMD-degree boundaries after odd prefixes are frequent; count(), finalize(), XOF bytes and the one-shot function are compared with the spec model of each instance's bytes after every step.",
+   SPEC + DBG, "DESIGN.md §3 C02"),
+ "C03": C("model-based property testing of OutputReader histories (position model + spec stream)",
+   "Exploration over root states (inputs at block/chunk edges, merge_subtrees_root_xof) and histories of fill/read/read_exact/set_position/seek/position/clone with positions on both sides of block counter 2^32 and up to 2^64-1; every read must equal spec S[p..p+n], positions and seek results follow a u64 model, failing seeks leave the position unchanged.",
+   SPEC + DBG + "Seeks beyond 2^64-1 are documented as unspecified and are not generated.", "DESIGN.md §3 C03"),
+ "C04": C("differential property testing across configurations (forced SIMD level x build flavour) with a common spec oracle",
+   "Exploration: the C01/C02/C03/C09 generators are re-run with the whole crate forced to each SIMD level the CPU supports (hook 1) in the asm, prefer_intrinsics, pure and no-default-features builds (thorough: stock no_* feature builds with hooks off); every output is compared with the spec model, so all configurations agree iff each agrees with it. The check fails as an engine error if an expected (build, level) pair did not execute.",
+   SPEC + DBG + "Only x86-64 levels present on this CPU (SSE2, SSE4.1, AVX2, AVX-512); NEON/wasm back ends cannot run here.", "DESIGN.md §3 C04"),
+ "C05": C("property-based differential testing of kernels (generated argument tuples vs spec compression function)",
+   "Exploration over argument tuples of compress_in_place/compress_xof/hash_many/xof_many (counters around 2^32 carries in every lane, all flag bytes, block lengths 0..=64, 0..=35 inputs at arbitrary alignments) executed on every kernel reachable here: Platform methods at each level in three builds (Unix asm, Rust intrinsics, C AVX-512 intrinsics) and raw FFI to C portable, C intrinsics, Unix assembly and the Windows-GNU assembly (assembled to ELF, called through extern \"win64\").",
+   SPEC + DBG + "MSVC .asm files, NEON and wasm kernels cannot be executed in this sandbox.", "DESIGN.md §3 C05"),
+ "C06": C("model-based property testing of C API histories via FFI (spec model + Rust crate as differential oracle)",
+   "Exploration over C histories (4 initialisers, updates, finalize/finalize_seek with seeks up to 2^64-1, reset, struct copy, zero-length calls) x CPU-feature mask x {assembly, C-intrinsics} library builds compiled from /repo/c at check time; outputs vs spec S[seek..seek+n] and vs the Rust crate; hasher bytes compared across finalize; reset hasher in lockstep with a fresh twin.",
+   SPEC + "Trusts gcc and the symbol-prefixing build (objcopy --redefine-syms) in engine/harness/build.rs.", "DESIGN.md §3 C06"),
+ "C07": C("property-based testing with fault observation: guard-page placement, register-sentinel trampolines, forked execution",
+   "Exploration: C05 tuples and C06 histories are re-run in a forked server process with every buffer (inputs, pointer array, key, cv, block, output, the blake3_hasher object) flush against PROT_NONE pages (end- or start-flush) and canaries on the open side; hand-written assembly is called through trampolines that plant sentinels in all callee-saved registers of System V / Win64 and record rsp and DF. A fault, a damaged canary, a lost sentinel or a wrong result fails the case (and shrinks). Thorough: also the unsafe Rust intrinsics builds.",
+   SPEC + "Reads that stay inside the same page as another live buffer are only caught in the placement that isolates that buffer; UB without a hardware-visible symptom is out of reach (ASan/UBSan driver: see notes).", "DESIGN.md §3 C07"),
+ "C09": C("property-based testing with a recursive decomposition generator + enumerated helper lattice",
+   "Exploration over random valid tree decompositions (split decisions consumed depth-first, per-leaf update splits, 4 modes), fixed power-of-two groupings, subtrees at chunk indices up to 2^54-1, and the two length helpers on a power-of-two lattice plus random u64 arguments; leaf CVs vs spec subtree CVs, roots vs spec hash/XOF, helpers vs closed forms.",
+   SPEC + DBG, "DESIGN.md §3 C09"),
+ "C10": C("model-based property testing: prefix . reset . suffix histories in lockstep with a fresh hasher and the spec model",
+   "Exploration over histories with set_input_offset (chunk-index lattice), updates clamped to the offset's subtree limit, finalize variants, inherent and trait reset, clone/swap; after each reset a freshly constructed twin runs the same suffix and both are compared with each other and with the spec after every op.",
+   SPEC + DBG, "DESIGN.md §3 C10"),
+ "C11": C("property-based fault injection: scripted Read implementations + file-length lattice, spec oracle",
+   "Exploration over reader behaviours (short reads, Interrupted, six kinds of hard errors, early EOF in any order), with prefixes and continued use after errors; files of every length around the 16 KiB mapping threshold and beyond through update_mmap, update_mmap_rayon and update_reader(File); special paths, directory, missing path; Write adapters.",
+   SPEC + DBG + "Special files are used only if present with stable finite content; FIFOs and endless devices are excluded (they would hang, which is not evidence).", "DESIGN.md §3 C11"),
+ "C14": C("exhaustive sweeps over decomposed value spaces + proptest, independent hex codec as oracle",
+   "Exploration with exhaustive sub-spaces: every byte value at every position of a hash (all conversions incl. serde JSON/CBOR and the legacy CBOR byte string), every byte value at every position of a valid hex string, all lengths 0..=130, from_slice for all lengths 0..=100, all 256 single-bit pairs; plus random inputs.",
+   "Trusts the independent hex codec in the harness, serde_json and ciborium. Wrong-length serde inputs are not asserted (the property does not state their fate). Timing of equality is out of scope.", "DESIGN.md §3 C14"),
+ "C15": C("exhaustive walk of the published vectors + model-based property testing of reference_impl histories",
+   "Every field of /repo/test_vectors/test_vectors.json (read at run time) is checked against the spec model, the frozen official copy, generate_json(), reference_impl, the optimized crate and both C builds (exhaustive, 105 entries + structure); reference_impl::Hasher histories (modes, update splits, output lengths 0..3000) vs spec and the crate.",
+   SPEC + "The frozen copy in oracle/ (SHA-256 recorded) is what 'published' means here.", "DESIGN.md §3 C15"),
+ "C16": C("model-based property testing: trait-driven hasher in lockstep with an inherent twin and the spec model",
+   "Exploration over histories of every method of digest 0.11's Update, FixedOutput(+Reset), ExtendableOutput(+Reset), XofReader, Reset, Digest, DynDigest, KeyInit and Mac (incl. verify* with correct/tampered tags) against a twin driven by inherent methods; outputs, count() and the state left behind compared after every call; guts::ChunkState/parent_cv vs spec chunk/parent CVs and root hashes over the 64-bit counter lattice.",
+   SPEC + DBG + "guts is_root is only generated with chunk counter 0 (the only root chunk the spec defines).", "DESIGN.md §3 C16"),
+ "C17": C("metamorphic property testing (Debug) + memory-snapshot search guided by the spec model (zeroize)",
+   "Debug: one history shape with two independent secret assignments must format byte-identically for Hasher (after every update), OutputReader and guts::ChunkState. Zeroize: the spec model lists the secret strings an object may hold (keys, every tree-node CV, running chunk CV, buffered block, root node CV/block); raw object bytes are snapshotted and after zeroize() no 8-byte window of any secret may remain.",
+   SPEC + "Reads object memory through raw pointers from zero-initialised storage; only distinctive windows (>=6 distinct bytes) are searched; the search must find at least one resident secret before zeroize, otherwise the case is an engine error, not a pass.", "DESIGN.md §3 C17"),
 }
 
 NOT_YET = {}
@@ -58,7 +101,7 @@ def main():
         json.dump(man, f, indent=1)
     print("MANIFEST.json written: %d checks, %d not_applicable" % (len(checks), len(na)))
 
-HOOK_COMMITS = []
+HOOK_COMMITS = ["2e5a821", "051af93"]
 
 if __name__ == "__main__":
     main()
